@@ -74,6 +74,13 @@ def main(tier, seed, replay=None):
                                    {"name": "limit", "in": "query", "schema": {"type": "integer"}}],
                    "op_params": [{"name": "version", "in": "header", "schema": {"type": "string"}}, {"name": "shared", "in": "query", "schema": {"type": "integer"}},
                                  {"name": "limit", "in": "query", "schema": {"type": "string"}}, {"name": "X-Only", "in": "header", "schema": {"type": "boolean"}}]}])
+    # deterministic: array query parameters in every style, with and without an explicit `explode`
+    A = {"type": "array", "items": {"type": "string"}}
+    cases.append([{"template": "/search", "method": "get", "id": "stylesx", "responses": [("200", [])],
+                   "op_params": [{"name": "f_def", "in": "query", "schema": A}, {"name": "f_ex", "in": "query", "schema": A, "explode": True},
+                                 {"name": "f_noex", "in": "query", "schema": A, "explode": False},
+                                 {"name": "sp_def", "in": "query", "schema": A, "style": "spaceDelimited"}, {"name": "sp_noex", "in": "query", "schema": A, "style": "spaceDelimited", "explode": False},
+                                 {"name": "pi_def", "in": "query", "schema": A, "style": "pipeDelimited"}, {"name": "pi_noex", "in": "query", "schema": A, "style": "pipeDelimited", "explode": False}]}])
     if replay:
         cases = [json.load(open(replay))["ops"]]
     d = vlib.scratch("C05")
@@ -171,6 +178,17 @@ def main(tier, seed, replay=None):
                 n_eval += 1
                 if want not in fieldnames:
                     viol.append((ops, f"{o['method'].upper()} {o['template']}: declared {loc} parameter {nm!r} is not a member of the request's {sname.lower()} struct (members {fieldnames})"))
+                elif loc == "query" and prm["schema"].get("type") == "array":
+                    # a non-exploded array arrives as ONE delimited value: the member needs the style's separator adapter;
+                    # explode defaults to true only for style form (OpenAPI 3.1 §4.8.12.2)
+                    style = prm.get("style", "form")
+                    exploded = prm.get("explode", style == "form")
+                    fld = next(f for st in structs for f in st["fields"] if f["name"] == want)
+                    attrs = " ".join(str(a.get("attr")) for a in fld["attrs"])
+                    sep = {"form": "Comma", "spaceDelimited": "Space", "pipeDelimited": "Pipe"}[style]
+                    has = f"StringWith{sep}Separator" in attrs
+                    if exploded == has or (not exploded and not has):
+                        viol.append((ops, f"{o['method'].upper()} {o['template']}: array query parameter {nm!r} (style {style}, explode {exploded}) is extracted {'with' if has else 'without'} the {sep.lower()} separator adapter ({attrs or 'no attributes'}): a request `?{nm}=a{ {'Comma': ',', 'Space': '%20', 'Pipe': '|'}[sep] }b` does not reach the handler as [a, b]"))
                 if (loc == "query" and "Query(query)" not in ext) or (loc == "header" and "HeaderMap" not in ext):
                     viol.append((ops, f"{o['method'].upper()} {o['template']}: no {loc} extractor in the handler although {nm!r} is declared ({ext})"))
         if len(flat) != len(ops):
